@@ -1,7 +1,8 @@
 """C18 — CSV / pandas export writes exactly the selected rows and columns.
 Correspondence: DataFrame.to_csv / DataFrame.to_pandas on real HDF5-backed (BytesIO) frames  vs  Exetera.Export.toCsv /
-toPandas (Lean, `csv.writer` instantiated by Spec.Csv.renderRow); Python's csv.writer / csv.reader vs Spec.Csv.render /
-parse (the opaque-but-specified parameter is validated, exhaustively over short strings); the real importer on the
+toPandas (Lean; the record writer is ExeTera's own `_csv_record` = Export.csvRecord with fixes/D30_NC18a, `csv.writer` =
+Spec.Csv.renderRow in the as-found variant the driver reports next to it); dataframe._csv_record vs Export.csvRecord and
+Python's csv.writer / csv.reader vs Spec.Csv.render / parse (exhaustively over short strings); the real importer on the
 exported file vs Spec.Csv.parse .exetera.
 Oracle for the property itself (check_spec): Python's csv.reader recovers header + [row i | i < n, filter i] from the file
 (strings exactly, numeric literals by value), the re-imported columns equal the exported ones, the pandas columns equal
@@ -26,17 +27,27 @@ TECHNIQUE = ("Lean 4 theorems about the executable model of to_csv/to_pandas and
 LEVEL_TEXT = ("Proof for all frames, filters, column selections and every chunk_row_size >= 1: the model of to_csv writes "
               "writerow(header) followed by writerow of exactly the rows [i < n, filter i] in order, in exactly "
               "len(first column)//chunk_row_size + 1 loop iterations, with no out-of-range access (hence the file does not depend on "
-              "chunk_row_size); for the specified writer (RFC-4180 minimal quoting as done by csv.writer) a standard reader "
-              "recovers every cell when no cell holds a carriage return, and ExeTera's own reader dialect recovers every cell up to "
-              "unquoted leading blanks; to_pandas returns the selected columns filtered, for filters of the frame's length.")
+              "chunk_row_size); with the record writer of fixes/D30_NC18a (the model of dataframe._csv_record) a standard reader and "
+              "ExeTera's own reader dialect - every one of the four dialects - recover the header and every cell of every selected "
+              "row exactly, whatever the cells hold, and the file equals the one csv.writer gives wherever no cell starts with a blank "
+              "or holds a carriage return; for csv.writer itself (as found) the same holds when no cell holds a bare carriage return "
+              "(standard reader) / up to unquoted leading blanks (ExeTera's reader); to_pandas (with fix NC18b) returns the selected columns restricted to exactly the rows to_csv "
+              "writes, for every filter to_csv's validator accepts (boolean Field, boolean or integer array, of any length) and "
+              "for a Python list; writing the rows of the pandas frame gives the file to_csv writes.")
 LEVEL_NOTE = ("Trusted: Lean kernel; the hand-written model of dataframe.py:574-656 and the CSV writer/reader specification, tied by "
               "the differential run (real to_csv/to_pandas bytes and columns = model, csv.writer = Spec.Csv.render and csv.reader = "
               "Spec.Csv.parse exhaustively over short strings of {a,blank,comma,quote,LF,CR}, real importer = Spec.Csv.parse "
               ".exetera on the re-import cases); Python's str() of numbers (the decimal literal) is checked by value on every case "
-              "but not modelled. Open findings: D30 (unquoted leading blanks are lost on re-import), NC18a (a cell with a bare CR is "
-              "written unquoted by csv.writer of Python < 3.13, so standard readers split the record), NC18b (to_pandas rejects a "
-              "Field filter and a filter of another length, which to_csv accepts). Fixed by the proposed patches NC18c/d/e "
-              "(locale encoding and newline translation, caller's column_filter mutated, same-named foreign filter field drops a column).")
+              "but not modelled. Findings D30 (unquoted leading blanks are lost on re-import) and NC18a (a cell with a bare CR is "
+              "written unquoted by csv.writer of Python < 3.13, so standard readers split the record) are repaired by "
+              "fixes/D30_NC18a (to_csv formats its records itself and also quotes such cells); the driver reports the csv.writer "
+              "variant next to the repaired one, so a tree without the fix is recognised (KNOWN-FINDING while the entries are "
+              "open, VIOLATION once they are `fixed`). Fixed by the patches NC18c/d/e "
+              "(locale encoding and newline translation, caller's column_filter mutated, same-named foreign filter field drops a "
+              "column) and NC18b (to_pandas indexed the columns with the raw row_filter: a Field and a boolean filter of another "
+              "length than the frame raised IndexError, an integer array was read as row numbers); the model carries to_pandas in "
+              "both variants and the driver reports the as-found one next to the repaired one, so a tree without the fix is "
+              "recognised (KNOWN-FINDING while the entry is open, VIOLATION once it is `fixed`).")
 RULE = ("exhaustive: every (row count n <= N, chunk_row_size 1..n+2, row filter = none or every boolean vector of length 0..n+1) "
         "(quick N=5, thorough N=7), filter kind (ndarray / own field / memory field / other frame's field) and column selection "
         "(none / one / subset / reordered / duplicated / containing the filter column) rotating, cell contents rotating through a pool with "
@@ -44,17 +55,21 @@ RULE = ("exhaustive: every (row count n <= N, chunk_row_size 1..n+2, row filter 
         "string of length <= L over {a,blank,comma,quote,LF,CR} through csv.writer/csv.reader vs the Lean writer/reader (quick L=6, "
         "thorough L=7); seeded random larger frames (n <= 60, chunk sizes around divisors of n and the default 1<<15) and a malformed stream "
         "(chunk_row_size <= 0, unknown/empty/tuple column filters, non-boolean filter fields, list filters, empty selections, "
-        "columns of unequal length). Non-trivial = a successful export with at least 2 data rows and (a filter that drops a row or a "
+        "columns of unequal length); to_pandas: every third exhaustive case and every fourth random case, the filter vector "
+        "(every length 0..n+1) as Python list / bool ndarray / 0-1 integer ndarray or list of every dtype / memory Field / boolean "
+        "column of the frame itself, random integer arrays with entries other than 0 and 1, malformed: str and non-boolean Field "
+        "filters, unknown / empty selections, ragged columns, empty frame. Non-trivial = a successful export with at least 2 data rows and (a filter that drops a row or a "
         "chunk boundary inside the data, crs < n) / a to_pandas call with a filter / a render or parse batch; distinct = distinct case dict.")
-ASSUMPTIONS = ["csv.writer(delimiter=',', lineterminator='\\n') is Spec.Csv.renderRow and csv.reader is Spec.Csv.parse (validated "
-               "exhaustively over short strings on every run, not proved about CPython)",
+ASSUMPTIONS = ["csv.reader is Spec.Csv.parse, dataframe._csv_record is Export.csvRecord and (as-found variant) "
+               "csv.writer(delimiter=',', lineterminator='\\n') is Spec.Csv.renderRow (validated exhaustively over short strings on "
+               "every run, not proved about CPython)",
                "Python str() of int/float/bool is a literal that float()/int() read back to the same value (checked on every case)",
                "h5py/HDF5 field storage returns what was written (C01); numpy boolean indexing; pandas.DataFrame(dict) keeps the arrays",
                "hand-written Lean model validated by this differential run, not verified against the Python text"]
 TRUSTED = ["Lean 4.33 kernel", "axioms: propext, Classical.choice, Quot.sound only (audited per theorem)",
            "checks/harness/c18.py generators, oracle and comparison",
            "Lean model Exetera/Model/Export.lean mirrors dataframe.py to_csv/to_pandas by hand",
-           "Exetera/Spec/CsvRender.lean stands for Python's csv module"]
+           "Exetera/Spec/CsvRender.lean stands for Python's csv module (the reader; the writer only in the as-found variant)"]
 EXPLANATION = ""
 
 INT_KINDS = ["int8", "uint8", "int16", "uint16", "int32", "uint32", "int64"]
@@ -110,6 +125,8 @@ def filter_data(case):
         return True, None
     if k == "array":
         return True, list(rf["data"])
+    if k == "int_array":
+        return True, [x == 1 for x in rf["data"]]           # `filter_array[j] == True` on an integer entry
     if k == "field":
         if rf["src"] == "own":
             col = next((c for c in case["cols"] if c["name"] == rf["name"]), None)
@@ -118,6 +135,52 @@ def filter_data(case):
             return True, [bool(x) for x in col["data"]]
         return True, list(rf["data"])
     return False, None
+
+
+INT_DTYPES = ["int8", "uint8", "int32", "int64"]
+
+
+def pd_filter_data(case):
+    """(valid, bool list or None) of a to_pandas row filter under the semantics of to_csv: what validate_boolean_row_filter
+    accepts (a Python list goes through np.asarray first), every entry read as `entry == True`"""
+    rf = case["rf"]
+    k = rf["kind"]
+    if k == "none":
+        return True, None
+    if k in ("list", "array"):
+        return True, [bool(x) for x in rf["data"]]
+    if k in ("int_array", "int_list"):
+        return True, [x == 1 for x in rf["data"]]
+    if k == "field":
+        if rf.get("src", "mem") == "own":
+            col = next((c for c in case["cols"] if c["name"] == rf["name"]), None)
+            if col is None or col["kind"] != "bool":
+                return False, None
+            return True, [bool(x) for x in col["data"]]
+        return True, [bool(x) for x in rf["data"]]
+    return False, None
+
+
+def pd_filter_as_found(case, n):
+    """what `field_arr[row_filter]` with the raw argument does to a column of n rows (the tree without fix NC18b):
+    ("err", tag) or ("rows", [row numbers])"""
+    rf = case["rf"]
+    k = rf["kind"]
+    if k == "none":
+        return "rows", list(range(n))
+    if k in ("field", "str"):
+        return "err", "index_error"
+    if k in ("list", "array"):
+        d = rf["data"]
+        if len(d) == 0:
+            return "rows", []
+        if len(d) != n:
+            return "err", "index_error"
+        return "rows", [i for i in range(n) if d[i]]
+    d = rf["data"]
+    if any(x < -n or x >= n for x in d):
+        return "err", "index_error"
+    return "rows", [x % n for x in d]
 
 
 def selected_names(case, for_csv=True):
@@ -261,6 +324,31 @@ def add_filter_variants(base, n, fvec, k):
     return case
 
 
+def add_pd_filter(case, fvec, k):
+    """attach the row filter `fvec` (None or bool list, of any length) to a to_pandas case in the shape chosen by k: Python list,
+    bool ndarray, integer ndarray / list (0/1), memory Field, a boolean column of the frame itself (`df.to_pandas(row_filter=df['flt'])`)"""
+    if fvec is None:
+        case["rf"] = {"kind": "none"}
+        return case
+    shape = k % 7
+    if shape in (0, 5):
+        case["rf"] = {"kind": "list", "data": fvec}
+    elif shape in (1, 6):
+        case["rf"] = {"kind": "array", "data": fvec}
+    elif shape == 2:
+        case["rf"] = {"kind": "field", "src": "mem", "data": fvec}
+    elif shape == 3:
+        cols = [dict(c) for c in case["cols"]]
+        cols.insert((k // 7) % (len(cols) + 1), {"name": "flt", "kind": "bool", "data": fvec})
+        case["cols"] = cols
+        case["rf"] = {"kind": "field", "src": "own", "name": "flt"}
+    else:
+        ints = (k // 7) % 3 != 0
+        case["rf"] = {"kind": "int_array" if ints else "int_list", "dtype": INT_DTYPES[(k // 7) % len(INT_DTYPES)] if ints else None,
+                      "data": [1 if b else 0 for b in fvec]}
+    return case
+
+
 def add_colfilter(case, k):
     keys = [c["name"] for c in case["cols"]]
     data_keys = [x for x in keys if x != "flt"] or keys
@@ -321,9 +409,9 @@ def gen_cases(tier, rng):
                 case = add_colfilter(add_filter_variants(base, n, fvec, k // 3), k // 5)
                 cases.append(finish_case(case, k, 4 if quick else 3))
                 if k % 3 == 0:
-                    pf = {"kind": "none"} if fvec is None else {"kind": ["list", "array", "field"][(k // 3) % 3 if (k // 3) % 7 == 0 else (k // 3) % 2],
-                                                               "data": fvec}
-                    pc = {"op": "c18_to_pandas", "cols": make_cols(layout, n, k, pool=PLAIN_POOL), "rf": pf, "_n": k}
+                    # to_pandas under the filters of to_csv: fvec has every length 0..n+1 (shorter, equal, longer than the frame)
+                    pc = {"op": "c18_to_pandas", "cols": make_cols(layout, n, k, pool=PLAIN_POOL), "_n": k}
+                    add_pd_filter(pc, fvec, k // 3)
                     add_colfilter(pc, k // 7)
                     cases.append(pc)
     # special header names
@@ -343,6 +431,9 @@ def gen_cases(tier, rng):
     rows += [[], [""], ["", ""], ["", "", ""]]
     for i in range(0, len(rows), B):
         cases.append({"op": "c18_render", "rows": rows[i:i + B], "_n": i})
+    # ---- ExeTera's own record writer (fixes/D30_NC18a: dataframe._csv_record) vs Export.csvRecord, and both readers on its output
+    for i in range(0, len(rows), B):
+        cases.append({"op": "c18_record", "rows": rows[i:i + B], "_n": i})
     # ---- seeded random ------------------------------------------------------------------------------------------
     R = 1500 if quick else 25000
     for _ in range(R):
@@ -370,6 +461,10 @@ def gen_cases(tier, rng):
             fvec = [rng.random() < p for _ in range(m)]
         base = {"op": "c18_to_csv", "cols": cols, "crs": crs}
         case = add_colfilter(add_filter_variants(base, n, fvec, rng.randrange(1000)), rng.randrange(1000))
+        if case["rf"]["kind"] == "array" and rng.random() < 0.25:
+            dt = rng.choice(INT_DTYPES)
+            case["rf"] = {"kind": "int_array", "dtype": dt,
+                          "data": [(1 if b else rng.choice([0, 0, 2, 3] + ([] if dt == "uint8" else [-1]))) for b in fvec]}
         # malformed stream
         m = rng.random()
         if m < 0.02:
@@ -392,15 +487,28 @@ def gen_cases(tier, rng):
             case["cols"][j]["data"] = case["cols"][j]["data"][: rng.randrange(0, n)]
         cases.append(finish_case(case, k, 5 if quick else 4))
         if _ % 4 == 0:
-            pf = {"kind": "none"} if fvec is None else {"kind": rng.choice(["list", "array", "array", "list", "field"]), "data": fvec}
-            pc = {"op": "c18_to_pandas", "cols": [dict(c) for c in cols], "rf": pf, "_n": k}
+            pc = {"op": "c18_to_pandas", "cols": [dict(c) for c in cols], "_n": k}
+            add_pd_filter(pc, fvec, rng.randrange(1000))
+            if fvec is not None and rng.random() < 0.12:
+                # integer arrays / lists with entries other than 0 and 1 (only `== True`, i.e. 1, selects), negative and large ones
+                kind = rng.choice(["int_array", "int_array", "int_list"])
+                pc["rf"] = {"kind": kind, "dtype": rng.choice(INT_DTYPES) if kind == "int_array" else None,
+                            "data": [rng.choice([0, 1, 1, 1, 2, -1, 3, 100]) for _i in fvec]}
+                if pc["rf"]["dtype"] == "uint8":
+                    pc["rf"]["data"] = [abs(x) for x in pc["rf"]["data"]]
             add_colfilter(pc, rng.randrange(1000))
+            if rng.random() < 0.04:
+                # malformed: a str, a non-boolean field of the frame
+                numeric = [c["name"] for c in pc["cols"] if c["kind"] in INT_KINDS + FLOAT_KINDS]
+                pc["rf"] = {"kind": "field", "src": "own", "name": numeric[0]} if numeric and rng.random() < 0.6 else {"kind": "str"}
             if rng.random() < 0.05:
                 pc["cf"] = rng.choice([{"kind": "many", "names": []}, {"kind": "many", "names": ["nope"]}, {"kind": "one", "names": ["nope"]}])
             if rng.random() < 0.05 and n > 1:
                 pc["cols"][-1]["data"] = pc["cols"][-1]["data"][:n - 1]
             if rng.random() < 0.03:
                 pc["cols"] = []
+                if pc["rf"].get("src") == "own":
+                    pc["rf"] = {"kind": "field", "src": "mem", "data": fvec or []}
             cases.append(pc)
     return cases
 
@@ -411,7 +519,7 @@ def gen_cases(tier, rng):
 
 def to_model(case):
     op = case["op"]
-    if op in ("c18_render", "c18_parse"):
+    if op in ("c18_render", "c18_parse", "c18_record"):
         return {k: v for k, v in case.items() if not k.startswith("_")}
     cols = [{"name": c["name"], "data": col_texts(c)} for c in case["cols"]]
     cf = case["cf"]
@@ -420,6 +528,8 @@ def to_model(case):
     if op in ("c18_to_csv", "c18_to_csv_env"):
         if rf["kind"] in ("none", "array"):
             mrf = dict(rf)
+        elif rf["kind"] == "int_array":
+            mrf = {"kind": "int_array", "data": [int(x) for x in rf["data"]]}
         elif rf["kind"] == "field":
             if rf["src"] == "own":
                 col = next(c for c in case["cols"] if c["name"] == rf["name"])
@@ -433,7 +543,21 @@ def to_model(case):
         else:
             mrf = {"kind": "invalid"}
         return {"op": "c18_to_csv", "cols": cols, "rf": mrf, "cf": mcf, "crs": case["crs"]}
-    return {"op": "c18_to_pandas", "cols": cols, "rf": {"kind": rf["kind"], "data": rf.get("data", [])}, "cf": mcf}
+    k = rf["kind"]
+    if k in ("none", "list", "array"):
+        mrf = {"kind": k, "data": [bool(x) for x in rf.get("data", [])]}
+    elif k in ("int_array", "int_list"):
+        mrf = {"kind": "int_array", "data": [int(x) for x in rf["data"]]}
+    elif k == "field":
+        if rf.get("src", "mem") == "own":
+            col = next(c for c in case["cols"] if c["name"] == rf["name"])
+            isb = col["kind"] == "bool"
+            mrf = {"kind": "field", "is_bool": isb, "data": [bool(x) for x in col["data"]] if isb else []}
+        else:
+            mrf = {"kind": "field", "is_bool": True, "data": [bool(x) for x in rf["data"]]}
+    else:
+        mrf = {"kind": "invalid"}
+    return {"op": "c18_to_pandas", "cols": cols, "rf": mrf, "cf": mcf}
 
 
 # ---------------------------------------------------------------------------------------------------------------
@@ -489,6 +613,14 @@ def impl(case):
     op = case["op"]
     if op == "c18_render":
         return {"text": py_render(case["rows"])}
+    if op == "c18_record":
+        import warnings
+        warnings.simplefilter("ignore")
+        from exetera.core import dataframe as _dfm
+        rec = getattr(_dfm, "_csv_record", None)
+        if rec is None:
+            return {"skip": "this tree writes its records with csv.writer (no dataframe._csv_record)"}
+        return {"text": "".join(rec(r) for r in case["rows"])}
     if op == "c18_parse":
         out = []
         for t in case["texts"]:
@@ -520,6 +652,14 @@ def impl(case):
             row_filter = [bool(x) for x in rf["data"]]
         elif rf["kind"] == "array":
             row_filter = np.array(rf["data"], dtype=bool)
+        elif rf["kind"] == "int_array":
+            row_filter = np.array(rf["data"], dtype=rf["dtype"])
+        elif rf["kind"] == "int_list":
+            row_filter = [int(x) for x in rf["data"]]
+        elif rf["kind"] == "str":
+            row_filter = "flt"
+        elif rf.get("src", "mem") == "own":
+            row_filter = df[rf["name"]]
         else:
             row_filter = fields.NumericMemField(s, "bool")
             row_filter.data.write(np.array(rf["data"], dtype=bool))
@@ -548,6 +688,8 @@ def run_to_csv(e, df, case):
         row_filter = None
     elif rf["kind"] == "array":
         row_filter = np.array(rf["data"], dtype=bool)
+    elif rf["kind"] == "int_array":
+        row_filter = np.array(rf["data"], dtype=rf["dtype"])
     elif rf["kind"] == "list":
         row_filter = [bool(x) for x in rf["data"]]
     elif rf["src"] == "own":
@@ -644,8 +786,16 @@ def expected_pandas(case):
     if len(lens) != 1:
         return None
     n = lens.pop()
-    rf = case["rf"]
-    flt = None if rf["kind"] == "none" else list(rf["data"])
+    okf, flt = pd_filter_data(case)          # "under the same filters": the filters of to_csv, with the meaning they have there
+    if not okf:
+        return None
+    return pandas_cols(case, [i for i in range(n) if keep(flt, i)]) + (n,)
+
+
+def pandas_cols(case, rows):
+    """(names, kinds, columns as cell texts) of the selected columns restricted to the row numbers `rows`"""
+    _, names = selected_names(case, for_csv=False)
+    cols = [next(c for c in case["cols"] if c["name"] == n) for n in names]
     seen, onames, ocols, okinds = set(), [], [], []
     for c in cols:
         if c["name"] in seen:
@@ -653,8 +803,8 @@ def expected_pandas(case):
         seen.add(c["name"])
         onames.append(c["name"])
         okinds.append(c["kind"])
-        ocols.append([cell_text(c["kind"], c["data"][i]) for i in range(n) if keep(flt, i)])
-    return onames, okinds, ocols, n
+        ocols.append([cell_text(c["kind"], c["data"][i]) for i in rows])
+    return onames, okinds, ocols
 
 
 def expected_reimport(case):
@@ -671,6 +821,17 @@ def check_spec(case, io_, mode):
         want = [list(r) for r in case["rows"]]
         return None if got is None or got == want else "csv.reader does not recover what csv.writer wrote"
     if op == "c18_parse":
+        return None
+    if op == "c18_record":
+        if "skip" in io_:
+            return None
+        if "err" in io_:
+            return f"_csv_record raised {io_['err']}"
+        want = [list(r) for r in case["rows"]]
+        if std_parse(io_["text"]) != want:
+            return "csv.reader does not recover what _csv_record wrote"
+        if [list(r) for r in csv.reader(io.StringIO(io_["text"], newline=""), skipinitialspace=True)] != want:
+            return "a reader that skips initial blanks does not recover what _csv_record wrote"
         return None
     if op in ("c18_to_csv", "c18_to_csv_env"):
         exp = expected_csv(case)
@@ -722,13 +883,22 @@ def check_spec(case, io_, mode):
 def match_finding(case, io_, mode):
     op = case["op"]
     if op == "c18_to_pandas":
+        # NC18b exactly: a filter to_csv accepts that raw indexing treats differently - a Field, a boolean filter of another length
+        # than the frame, an integer array (read as row numbers) - and the outcome is that of `field_arr[row_filter]`
         exp = expected_pandas(case)
         rf = case["rf"]
-        if exp is not None and io_.get("err") == "index_error" and (
-                rf["kind"] == "field" or
-                (rf["kind"] in ("list", "array") and len(rf["data"]) != exp[3] and len(rf["data"]) > 0)):
-            return "NC18b"
-        return None
+        if exp is None:
+            return None
+        n = exp[3]
+        if not (rf["kind"] == "field" or rf["kind"] in ("int_array", "int_list") or
+                (rf["kind"] in ("list", "array") and len(rf["data"]) != n and len(rf["data"]) > 0)):
+            return None
+        what, val = pd_filter_as_found(case, n)
+        if what == "err":
+            return "NC18b" if io_.get("err") == val else None
+        if "err" in io_:
+            return None
+        return "NC18b" if io_["names"] == exp[0] and io_["cols"] == pandas_cols(case, val)[2] else None
     if op not in ("c18_to_csv", "c18_to_csv_env") or "err" in io_:
         return None
     exp = expected_csv(case)
@@ -774,6 +944,26 @@ def compare(case, io_, mo, mode):
             if "\r" not in t and (b["exetera"] != b["skip"] or b["plain"] != b["std"]):
                 return f"dialects differ on CR-free text {t!r}"
         return None
+    if op == "c18_to_pandas":
+        why = compare_pandas(io_, mo)
+        af = mo.get("as_found")
+        if why and af is not None and compare_pandas(io_, af) is None:
+            if nc18b_open():
+                return None     # DESIGN 1.3: a tree without fix NC18b matches the as-found variant; while the finding is open its
+                #                 property failures are reported through check_spec / match_finding as KNOWN-FINDING
+            why += "  [impl equals the AS-FOUND model variant: fix NC18b is not applied]"
+        return why
+    if op == "c18_record" and "skip" in io_:
+        return None
+    if op in ("c18_to_csv", "c18_to_csv_env"):
+        why = compare_csv(io_, mo)
+        af = mo.get("as_found")
+        if why and af is not None and compare_csv(io_, af) is None:
+            if finding_open("D30") or finding_open("NC18a"):
+                return None     # DESIGN 1.3: a tree that writes its records with csv.writer matches the as-found variant; while the
+                #                 findings are open its property failures are reported through check_spec / match_finding
+            why += "  [impl equals the AS-FOUND model variant (csv.writer): fix D30_NC18a is not applied]"
+        return why
     if "err" in io_ and "err" in mo:
         return None if io_["err"] == mo["err"] else f"errors differ: impl {io_['err']} ({io_.get('msg', '')[:80]}) model {mo['err']}"
     if "err" in io_ or "err" in mo:
@@ -781,29 +971,61 @@ def compare(case, io_, mo, mode):
     m = mo["ok"]
     if op == "c18_render":
         return None if io_["text"] == m["text"] else f"csv.writer {io_['text']!r} vs Spec.Csv.render {m['text']!r}"
-    if op in ("c18_to_csv", "c18_to_csv_env"):
-        if io_["text"] != m["text"]:
-            return f"file {io_['text']!r} vs model {m['text']!r}"
-        if std_parse(io_["text"]) != m["std"]:
-            return f"csv.reader {std_parse(io_['text'])} vs Spec.Csv.parse .std {m['std']}"
-        ri = io_.get("reimport")
-        if ri is not None:
-            if "err" in ri:
-                return f"importer raised {ri['err']}; model parses {m['reimport']}"
-            body = m["reimport"][1:]
-            ncol = len(ri["cols"])
-            mcols = [[r[j] if j < len(r) else None for r in body] for j in range(ncol)]
-            if any(len(r) != ncol for r in body) or mcols != ri["cols"]:
-                return f"importer read {ri['cols']} vs Spec.Csv.parse .exetera {body}"
-        return None
+    if op == "c18_record":
+        return None if io_["text"] == m["text"] else f"_csv_record {io_['text']!r} vs Export.csvRecord {m['text']!r}"
+    return None
+
+
+def compare_csv(io_, mo):
+    if "err" in io_ and "err" in mo:
+        return None if io_["err"] == mo["err"] else f"errors differ: impl {io_['err']} ({io_.get('msg', '')[:80]}) model {mo['err']}"
+    if "err" in io_ or "err" in mo:
+        return f"impl={json.dumps(io_)[:200]} model={json.dumps({k: v for k, v in mo.items() if k != 'as_found'})[:200]}"
+    m = mo["ok"]
+    if io_["text"] != m["text"]:
+        return f"file {io_['text']!r} vs model {m['text']!r}"
+    if std_parse(io_["text"]) != m["std"]:
+        return f"csv.reader {std_parse(io_['text'])} vs Spec.Csv.parse .std {m['std']}"
+    ri = io_.get("reimport")
+    if ri is not None:
+        if "err" in ri:
+            return f"importer raised {ri['err']}; model parses {m['reimport']}"
+        body = m["reimport"][1:]
+        ncol = len(ri["cols"])
+        mcols = [[r[j] if j < len(r) else None for r in body] for j in range(ncol)]
+        if any(len(r) != ncol for r in body) or mcols != ri["cols"]:
+            return f"importer read {ri['cols']} vs Spec.Csv.parse .exetera {body}"
+    return None
+
+
+def compare_pandas(io_, mo):
+    if "err" in io_ and "err" in mo:
+        return None if io_["err"] == mo["err"] else f"errors differ: impl {io_['err']} ({io_.get('msg', '')[:80]}) model {mo['err']}"
+    if "err" in io_ or "err" in mo:
+        return f"impl={json.dumps(io_)[:200]} model={json.dumps({k: v for k, v in mo.items() if k != 'as_found'})[:200]}"
+    m = mo["ok"]
     if io_["names"] != m["names"] or io_["cols"] != m["cols"]:
         return f"pandas {io_['names']} {io_['cols']} vs model {m['names']} {m['cols']}"
     return None
 
 
+_OPEN = {}
+
+
+def finding_open(fid):
+    if not _OPEN:
+        from checks import lib
+        _OPEN.update({f["id"]: f["status"] == "open" for f in lib.load_findings("C18")})
+    return _OPEN.get(fid, False)
+
+
+def nc18b_open():
+    return finding_open("NC18b")
+
+
 def nontrivial(case, mo):
     op = case["op"]
-    if op in ("c18_render", "c18_parse"):
+    if op in ("c18_render", "c18_parse", "c18_record"):
         return True
     if mo is None or "ok" not in mo:
         return False
@@ -819,13 +1041,18 @@ def nontrivial(case, mo):
 def classify(case, mo):
     op = case["op"]
     tags = [op]
-    if op in ("c18_render", "c18_parse"):
+    if op in ("c18_render", "c18_parse", "c18_record"):
         return tags
     if mo is not None and "err" in mo:
         tags.append("err:" + mo["err"])
         return tags
     tags.append("rf:" + case["rf"]["kind"] + (":" + case["rf"].get("src", "") if case["rf"]["kind"] == "field" else ""))
     tags.append("cf:" + case["cf"]["kind"])
+    if op == "c18_to_pandas":
+        exp = expected_pandas(case)
+        okf, flt = pd_filter_data(case)
+        if exp is not None and flt is not None:
+            tags.append("pd-flt-shorter" if len(flt) < exp[3] else ("pd-flt-longer" if len(flt) > exp[3] else "pd-flt=n"))
     if op == "c18_to_csv":
         n = max([len(c["data"]) for c in case["cols"]] + [0])
         crs = case["crs"]
